@@ -80,7 +80,11 @@ var pool = map[string]Kind{}
 // stallAfter is how long a cancelled call may stay blocked before it counts as a stall.
 // The library's reaction to a cancellation is immediate (a goroutine wakes and sets a
 // deadline in the past), so this is three orders of magnitude of slack.
-const stallAfter = 1500 * time.Millisecond
+var stallAfter = 10 * time.Second
+
+// once a few stalls have been seen (each is reported anyway) the remaining scenarios use a short
+// watchdog, so that a tree that really stalls does not make the run take forever
+var stallsSeen int
 
 const nsTLS = "urn:ietf:params:xml:ns:xmpp-tls"
 
@@ -495,6 +499,9 @@ func runScenario(sc Scenario) []vt.Ev {
 		case <-done:
 		case <-time.After(stallAfter):
 			r.lg.Add(vt.Ev{"ev": "stall"})
+			if stallsSeen++; stallsSeen >= 3 {
+				stallAfter = 1500 * time.Millisecond
+			}
 			r.conn.CloseIn()
 			<-done
 		}
